@@ -13,7 +13,10 @@
 (*   Sum(slots') = Sum(slots) - lockTokens*10^18 - burn + Sum(matured)     *)
 (*                 (+ extraPlus - extraMinus: the reward block 36000 itself *)
 (*                 adds to the escrow it pays out, see harness/cmd/c06)     *)
-(* and no slot exceeds what the total supply allows (no wrap).             *)
+(* and no slot exceeds what the total supply allows (no wrap).  lockTokens *)
+(* is the growth of the registered stakes in the block (observed), and at a *)
+(* refund height the matured escrow must equal what left the stake records  *)
+(* for that height (expectMatured): stake + escrow + liquid is conserved.   *)
 (***************************************************************************)
 EXTENDS BigNat, Json, TLC
 
@@ -43,7 +46,9 @@ JudgeBlock(e) ==
        ELSE IF Eq(post, exp) THEN <<>>
        ELSE IF Lt(exp, post) THEN <<"Inv.SumIncreased." \o e.kind>>
        ELSE <<"Inv.SumDecreased." \o e.kind>>) \o
-      Tag(\A i \in 1..Len(e.slots) : Lt(e.slots[i], Ceiling), "Inv.NoWrap." \o e.kind)
+      Tag(\A i \in 1..Len(e.slots) : Lt(e.slots[i], Ceiling), "Inv.NoWrap." \o e.kind) \o
+      (* what is paid out at a refund height is exactly what left the stake records for it *)
+      (IF e.kind = "Mature" THEN Tag(Eq(Total(e.matured), Norm(e.expectMatured)), "Inv.RefundEqualsStakeReleased") ELSE <<>>)
 
 Judge(e) == IF e.event = "Block" THEN JudgeBlock(e) ELSE <<>>
 
